@@ -333,7 +333,8 @@ def gen_spec(ctx, sh, depth=0):
         o = {}
         r = rng.random()
         if r < 0.4:
-            o['default'] = rng.choice(['dflt', None, 0, {'t': 'spec', 'v': ['T', 'T', []]}])
+            o['default'] = rng.choice(['dflt', None, 0, {'t': 'spec', 'v': ['T', 'T', []]},
+                                       {'t': 'list', 'v': []}, {'t': 'dict', 'v': []}, {'t': 'list', 'v': [1]}])
         elif r < 0.5 and ctx.probes:
             o['default_factory'] = ['probe', ctx.new_pid(), 'tok']
         if rng.random() < 0.2:
@@ -379,7 +380,7 @@ def gen_spec(ctx, sh, depth=0):
         tn = {'dict': 'dict', 'list': 'list', 'int': 'int', 'str': 'str', 'tuple': 'tuple'}.get(k, 'object')
         if rng.random() < 0.25:
             tn = rng.choice(['int', 'str', 'dict', 'list'])
-        o = {'default': 'nomatch'} if rng.random() < 0.3 else None
+        o = {'default': rng.choice(['nomatch', {'t': 'dict', 'v': []}, {'t': 'list', 'v': []}])} if rng.random() < 0.3 else None
         if k == 'list' and rng.random() < 0.5:
             et = {'int': 'int', 'dict': 'dict', 'list': 'list', 'str': 'str'}.get(
                 kind_of(sh['v'][0]) if sh['v'] else None, 'object')
@@ -391,7 +392,7 @@ def gen_spec(ctx, sh, depth=0):
         cases = []
         for _ in range(rng.randint(1, 3)):
             cases.append([pred(ctx, sh), G(sh)[0]])
-        o = {'default': 'sw-default'} if rng.random() < 0.4 else None
+        o = {'default': rng.choice(['sw-default', {'t': 'list', 'v': []}, {'t': 'dict', 'v': []}])} if rng.random() < 0.4 else None
         return ['Switch', cases, o], None
     if c == 'bool':
         op = rng.choice(['Or', 'And'])
